@@ -439,7 +439,9 @@ impl Avp {
         let header = AvpHeader::decode_from(reader)?;
 
         let header_length = if header.flags.vendor { 12 } else { 8 };
-        let value_length = header.length - header_length;
+        let value_length = header.length.checked_sub(header_length).ok_or_else(|| {
+            Error::DecodeError("invalid avp length, shorter than its header".into())
+        })?;
 
         let avp_type = dict
             .get_avp_type(header.code, header.vendor_id)
